@@ -1,3 +1,170 @@
+import Bch.Proofs.Base58
+/-
+C06 — WIF private-key strings round-trip, are canonical and checksum-guarded.
+
+"For every 32-byte private key, network and compression flag, the WIF string decodes back to the same
+key bytes, the same flag and the same network identity […]. A string is accepted only if it
+Base58-decodes to exactly 37 bytes, or 38 bytes ending in 0x01 before the checksum, whose last four
+bytes are the double-SHA256 prefix of the rest, and every accepted string re-encodes to itself."
+
+All theorems are about the executable model `Bch.Model.Wif` (`String`, `DecodeWIF`, `paddedAppend`);
+the private scalar is a `Nat` (`D`), the key *bytes* are `Bytes.ofNatBE 32 d`. The double SHA-256 is
+an arbitrary function `H`; the only hypothesis ever needed is that it returns at least 4 bytes.
+The public-key serialisation clause of the property is not a function of this model (it is the
+caller-side choice `if compress then serCompressed else serUncompressed` in `Bch/Drive/C06.lean`) and
+is therefore not a theorem here.
+Proofs are in `Bch/Proofs/Base58.lean`.
+-/
 namespace Bch.Props.C06
-theorem placeholder : True := trivial
+open Bch Bch.Model Bch.Model.Base58 Bch.Model.Wif
+open Bch.Proofs.Base58
+
+/-! ### the padding fact (the historically buggy case: keys with leading zero bytes) -/
+
+/-- For every 32-byte key — with any number (0..32) of leading zero bytes — zero-padding the minimal
+big-endian form of its value back to 32 bytes restores exactly the key bytes. -/
+theorem C06_pad_key : ∀ (dst k : Bytes), k.length = 32 →
+    paddedAppend 32 dst (Bytes.ofNatMin (Bytes.toNatBE k)) = dst ++ k :=
+  paddedAppend_key
+
+/-- The same for every scalar `d < 2^256`: the padded field is the 32-byte big-endian form of `d`. -/
+theorem C06_pad_lt : ∀ (dst : Bytes) (d : Nat), d < 2 ^ 256 →
+    paddedAppend 32 dst (Bytes.ofNatMin d) = dst ++ Bytes.ofNatBE 32 d ∧
+    (Bytes.ofNatBE 32 d).length = 32 ∧ Bytes.toNatBE (Bytes.ofNatBE 32 d) = d := by
+  intro dst d h
+  refine ⟨paddedAppend_ofNatMin dst d h, length_ofNatBE _ _, ?_⟩
+  rw [toNatBE_ofNatBE, Nat.mod_eq_of_lt (by rwa [← two_pow_256])]
+
+/-- Key bytes ↔ scalar: a 32-byte key is recovered from its value. -/
+theorem C06_key_bytes : ∀ k : Bytes, k.length = 32 → Bytes.ofNatBE 32 (Bytes.toNatBE k) = k := by
+  intro k hk; rw [← hk]; exact ofNatBE_toNatBE k
+
+/-! ### round trip -/
+
+/-- Every scalar below `2^256`, every net id, both flags: decoding the WIF string gives back the
+same `WIF` value. -/
+theorem C06_roundtrip_nat : ∀ (H : Bytes → Bytes) (_hH : ∀ x, 4 ≤ (H x).length) (w : WIF),
+    w.d < 2 ^ 256 → DecodeWIF H (Wif.String H w) = .ok w :=
+  fun H hH w hd => DecodeWIF_String H w hd (hH _)
+
+/-- Every 32-byte key (leading zero bytes included), every net id, both flags: the WIF string
+decodes to the same scalar, flag and net id, and the decoded key bytes are the original bytes. -/
+theorem C06_roundtrip : ∀ (H : Bytes → Bytes) (_hH : ∀ x, 4 ≤ (H x).length) (k : Bytes),
+    k.length = 32 → ∀ (netID : UInt8) (compress : Bool),
+    DecodeWIF H (Wif.String H ⟨Bytes.toNatBE k, compress, netID⟩)
+      = .ok ⟨Bytes.toNatBE k, compress, netID⟩ ∧
+    Bytes.ofNatBE 32 (Bytes.toNatBE k) = k := by
+  intro H hH k hk netID compress
+  refine ⟨DecodeWIF_String H _ ?_ (hH _), C06_key_bytes k hk⟩
+  show Bytes.toNatBE k < 2 ^ 256
+  rw [two_pow_256, ← hk]; exact toNatBE_lt k
+
+/-- The range condition is exact: a scalar `≥ 2^256` (which no 32-byte key has) does not round-trip. -/
+theorem C06_roundtrip_iff : ∀ (H : Bytes → Bytes) (_hH : ∀ x, 4 ≤ (H x).length) (w : WIF),
+    DecodeWIF H (Wif.String H w) = .ok w ↔ w.d < 2 ^ 256 :=
+  fun H hH w => ⟨lt_of_DecodeWIF_ok H _ w, fun hd => DecodeWIF_String H w hd (hH _)⟩
+
+/-! ### acceptance -/
+
+/-- Accepted iff the Base58 decoding has 37 bytes, or 38 with byte 33 equal to 1, and its last four
+bytes are the hash prefix of the rest; the result is then: scalar = bytes 1..32, flag = (38 bytes),
+net id = byte 0. No hypothesis on `H`. -/
+theorem C06_accept_iff : ∀ (H : Bytes → Bytes) (s : Bytes) (w : WIF),
+    DecodeWIF H s = .ok w ↔
+      ((Decode s).length = 37 ∨ ((Decode s).length = 38 ∧ (Decode s).getD 33 0 = 1)) ∧
+      (Decode s).drop ((Decode s).length - 4)
+        = (H ((Decode s).take ((Decode s).length - 4))).take 4 ∧
+      w = ⟨Bytes.toNatBE (((Decode s).drop 1).take 32), decide ((Decode s).length = 38),
+            (Decode s).headD 0⟩ :=
+  DecodeWIF_ok_iff_tail
+
+/-- Structural form: accepted with result `w` iff the decoding is
+`netID :: key(32 bytes) ++ [1 if compressed] ++ 4-byte hash prefix of all that`, `w.d` being the value
+of `key`. -/
+theorem C06_accept_iff_struct : ∀ (H : Bytes → Bytes) (s : Bytes) (w : WIF),
+    DecodeWIF H s = .ok w ↔ ∃ key : Bytes, key.length = 32 ∧ w.d = Bytes.toNatBE key ∧
+      Decode s = (w.netID :: key ++ (if w.compress then [1] else []))
+                  ++ (H (w.netID :: key ++ (if w.compress then [1] else []))).take 4 ∧
+      ((H (w.netID :: key ++ (if w.compress then [1] else []))).take 4).length = 4 :=
+  DecodeWIF_ok_iff
+
+/-- `ErrMalformedPrivateKey` exactly when the length/marker condition fails. -/
+theorem C06_malformed_iff : ∀ (H : Bytes → Bytes) (s : Bytes),
+    DecodeWIF H s = .error .malformed ↔
+      ¬ ((Decode s).length = 37 ∨ ((Decode s).length = 38 ∧ (Decode s).getD 33 0 = 1)) :=
+  DecodeWIF_malformed_iff
+
+/-- `ErrChecksumMismatch` exactly when the format is fine and the last four bytes differ from the
+hash prefix of the rest. -/
+theorem C06_checksum_iff : ∀ (H : Bytes → Bytes) (s : Bytes),
+    DecodeWIF H s = .error .checksum ↔
+      ((Decode s).length = 37 ∨ ((Decode s).length = 38 ∧ (Decode s).getD 33 0 = 1)) ∧
+      (Decode s).drop ((Decode s).length - 4)
+        ≠ (H ((Decode s).take ((Decode s).length - 4))).take 4 :=
+  DecodeWIF_checksum_iff
+
+/-- A string containing a byte outside the Base58 alphabet is malformed. -/
+theorem C06_foreign : ∀ (H : Bytes → Bytes) (s : Bytes), (∃ c ∈ s, b58 c = none) →
+    DecodeWIF H s = .error .malformed := by
+  intro H s h
+  rw [DecodeWIF_malformed_iff, Decode_foreign s h]
+  simp [wifFormatOk]
+
+/-- Every accepted string carries a scalar below `2^256`. -/
+theorem C06_accepted_range : ∀ (H : Bytes → Bytes) (s : Bytes) (w : WIF),
+    DecodeWIF H s = .ok w → w.d < 2 ^ 256 :=
+  lt_of_DecodeWIF_ok
+
+/-! ### canonicity -/
+
+/-- Every accepted string re-encodes to itself. Strongest form: no hypothesis on `H` and none on the
+characters of `s` (a foreign character makes the decoding empty, hence rejected; Base58 is a
+bijection on the rest, C07). -/
+theorem C06_canonical : ∀ (H : Bytes → Bytes) (s : Bytes) (w : WIF),
+    DecodeWIF H s = .ok w → Wif.String H w = s :=
+  String_of_DecodeWIF_ok
+
+/-! ### non-vacuity -/
+section
+local notation "H0" => (fun x : Bytes => x ++ [1, 2, 3, 4])
+
+example : ∀ x, 4 ≤ (H0 x).length := by intro x; simp
+
+/-- a 32-byte key with 31 leading zero bytes -/
+example : (List.replicate 31 0 ++ [7] : Bytes).length = 32 := by decide
+example : DecodeWIF H0 (Wif.String H0 ⟨Bytes.toNatBE (List.replicate 31 0 ++ [7]), true, 0x80⟩)
+    = .ok ⟨7, true, 0x80⟩ :=
+  (C06_roundtrip H0 (by intro x; simp) (List.replicate 31 0 ++ [7]) (by decide) 0x80 true).1
+/-- the all-zero key (scalar 0, 32 bytes of padding) -/
+example : DecodeWIF H0 (Wif.String H0 ⟨0, false, 0xef⟩) = .ok ⟨0, false, 0xef⟩ :=
+  C06_roundtrip_nat H0 (by intro x; simp) ⟨0, false, 0xef⟩ (by decide)
+example : paddedAppend 32 [0x80] (Bytes.ofNatMin 7) = 0x80 :: (List.replicate 31 0 ++ [7]) := by
+  have h := C06_pad_key [0x80] (List.replicate 31 0 ++ [7]) (by decide)
+  have hv : Bytes.toNatBE (List.replicate 31 0 ++ [7]) = 7 := by decide
+  rwa [hv] at h
+
+/-- a scalar of 33 bytes does not round-trip -/
+example : DecodeWIF H0 (Wif.String H0 ⟨2 ^ 256, false, 0x80⟩) ≠ .ok ⟨2 ^ 256, false, 0x80⟩ := by
+  intro h
+  exact absurd ((C06_roundtrip_iff H0 (by intro x; simp) _).mp h) (by decide)
+
+/-- accepted, malformed and checksum-error instances built by hand (37 bytes: net 5, key 0…0 9; the
+first four bytes of `H0 x` are the first four bytes of `x`, here `[5,0,0,0]`) -/
+example : DecodeWIF H0 (Encode (5 :: (List.replicate 31 0 ++ [9]) ++ [5, 0, 0, 0])) = .ok ⟨9, false, 5⟩ := by
+  rw [C06_accept_iff, Decode_Encode]; decide
+example : DecodeWIF H0 (Encode (5 :: (List.replicate 31 0 ++ [9]) ++ [5, 0, 0, 1])) = .error .checksum := by
+  rw [C06_checksum_iff, Decode_Encode]; decide
+/-- 38 bytes whose marker byte is 2: malformed even with a "correct" checksum -/
+example : DecodeWIF H0 (Encode (5 :: (List.replicate 31 0 ++ [9]) ++ [2] ++ [5, 0, 0, 0])) = .error .malformed := by
+  rw [C06_malformed_iff, Decode_Encode]; decide
+/-- … and with marker 1 it is accepted as a compressed key -/
+example : DecodeWIF H0 (Encode (5 :: (List.replicate 31 0 ++ [9]) ++ [1] ++ [5, 0, 0, 0])) = .ok ⟨9, true, 5⟩ := by
+  rw [C06_accept_iff, Decode_Encode]; decide
+/-- canonicity applied to the accepted instance above -/
+example : Wif.String H0 ⟨9, false, 5⟩ = Encode (5 :: (List.replicate 31 0 ++ [9]) ++ [5, 0, 0, 0]) :=
+  C06_canonical H0 _ _ (by rw [C06_accept_iff, Decode_Encode]; decide)
+example : DecodeWIF H0 [] = .error .malformed := by
+  rw [C06_malformed_iff]; simp [Decode, decodeNat, leadingOnes, ofNatMin_zero]
+end
+
 end Bch.Props.C06
